@@ -72,9 +72,23 @@ def handleC05 (args : List String) (impl : String) : Verdict :=
         let st' := (runOps st [op]).1
         ok && chk st' rest
     let refused := chk p.st0 (p.ops.zip p.implRes)
-    let ok := noTrace && refused && hashInv p.implSt
+    -- "the instance keeps answering later requests": a node-point batch without a NaN is always acceptable,
+    -- an edge-point batch on an existing edge that is none of the refusable kinds as well
+    let rec answers (st : St) : List (Op × String) → Bool
+      | [] => true
+      | (op, r) :: rest =>
+        let fine := match op with
+          | .np _ pts => pts.any (fun q => isNaN q.value) || r == "ok"
+          | .ep id par pts =>
+            let u := if par.isEmpty then rootS else par
+            mustRefuse st op || (st.edges.find? (fun e => e.up == u && e.down == id)).isNone || r == "ok"
+          | .up _ _ => true
+        fine && answers (runOps st [op]).1 rest
+    let answered := answers p.st0 (p.ops.zip p.implRes)
+    let ok := noTrace && refused && hashInv p.implSt && answered
     { model := m, spec := some ok,
-      note := if ok then "" else if !refused then "class=bad-write-accepted" else if !noTrace then "class=refused-write-left-trace" else "class=hash-mismatch" }
+      note := if ok then "" else if !refused then "class=bad-write-accepted" else if !answered then "class=later-request-not-served"
+        else if !noTrace then "class=refused-write-left-trace" else "class=hash-mismatch" }
   | none => bad "C05 parse"
 
 end Driver.C01
